@@ -66,11 +66,7 @@ Theorem C09_counter_on_instance_refuted :
     let r1 := old_verb_parse (old_vnew None) s ps pos in
     let r2 := old_verb_parse (fst r1) s ps pos in
     snd r1 <> snd r2.
-Proof.
-  exists doc_v, (walker_state {| cx_macros := []; cx_envs := []; cx_specials := [];
-                                cx_unk_macro := None; cx_unk_env := None |}), 2.
-  exact (proj1 counter_on_instance_differs).
-Qed.
+Proof. exact counter_on_instance_refuted. Qed.
 
 (** Table obligation, re-proved against the table regenerated from /repo on
     every run: for every argument of the default walker database
